@@ -99,8 +99,12 @@ static inline bool exps_equal(const std::vector<Bn>& a, const std::vector<Bn>& b
 extern thread_local Rep* tl_env_rep; extern thread_local int tl_env_view; extern thread_local const char* tl_list_modified;
 struct JAttrs {      // storage for a jv_attrs passed to the adapter
     std::vector<jv_attr> a; jv_attrs l; uint8_t* nat = nullptr; size_t nat_n = 0; std::vector<uint8_t> nat_copy;
-    JAttrs(const std::vector<MAttr>& L, bool omit_all, bool is_null = false) {
+    // order: how the caller wrote the entries down - 0 ascending slot index (what every key-deriving call needs), 1 descending, >= 2 a permutation
+    // seeded by the value. encrypt / precompute / verify take the product over the entries and accept any order.
+    JAttrs(const std::vector<MAttr>& L, bool omit_all, bool is_null = false, uint64_t order = 0) {
         for (auto& m : L) { jv_attr x; memset(&x, 0, sizeof(x)); m.id.to_le(x.id, 32); x.idx = m.idx; x.omit = m.omit ? 1 : 0; a.push_back(x); }
+        if (order == 1) std::reverse(a.begin(), a.end());
+        else if (order >= 2) { uint64_t st = order * 0x9E3779B97F4A7C15ull + 1; for (size_t i = a.size(); i > 1; i--) { st ^= st << 13; st ^= st >> 7; st ^= st << 17; std::swap(a[i - 1], a[(size_t) (st % i)]); } }
         l.a = a.data(); l.n = a.size(); l.omit_all = omit_all ? 1 : 0; l.is_null = is_null ? 1 : 0; l.native = nullptr;
         if (tl_env_rep && !is_null) {
             nat_n = tl_env_rep->jv_wk_native_list_bytes(tl_env_view, a.size()); nat = (uint8_t*) malloc(nat_n);
